@@ -273,6 +273,24 @@ func (c *connection) sendWaitReply(callerCtx context.Context, msg Message) (Mess
 	timer := pool.GetTimer(timeout)
 	defer pool.PutTimer(timer)
 
+	// settled ends the wait for good. It withdraws the registration first — from then on a reply is a
+	// miss and goes to the handlers — and then reports a result that had ALREADY been routed to this
+	// sender: a reply that ties with the timer, the teardown or the caller's cancellation is this
+	// transaction's reply (it reached its one recipient), not a message lost in an abandoned buffer.
+	settled := func() (replyResult, bool) {
+		e.replies.deregister(msg.SystemBytes())
+		select {
+		case res := <-ch:
+			if isData && res.err == nil && res.msg != nil && res.msg.Type() != DataMsgType {
+				return replyResult{}, false
+			}
+
+			return res, true
+		default:
+			return replyResult{}, false
+		}
+	}
+
 wait:
 	select {
 	case res := <-ch:
@@ -285,6 +303,9 @@ wait:
 
 		return res.msg, res.err
 	case <-timer.C:
+		if res, ok := settled(); ok {
+			return res.msg, res.err
+		}
 		// Protocol timeout: T3 (data) — a transaction failure.
 		if isData {
 			c.metrics.incDataMsgErr()
@@ -296,10 +317,17 @@ wait:
 
 		return nil, timeoutErr
 	case <-e.ctx.Done():
+		if res, ok := settled(); ok {
+			return res.msg, res.err
+		}
 		// Connection teardown/drop — a lifecycle event, NOT a data transaction error, so a
 		// normal Close mid-transaction never inflates the cumulative error counter.
 		return nil, ErrConnClosed
 	case <-callerCtx.Done():
+		if res, ok := settled(); ok {
+			return res.msg, res.err
+		}
+
 		return nil, callerCtx.Err()
 	}
 }
